@@ -338,7 +338,14 @@ def r04d(model: Model, rr: RuleResult):
         val = ast.Call(func=val.func, args=[inline_new_helpers(resolved(acfg, acfg.node_for(rets[0]), x), afi) for x in val.args], keywords=val.keywords)
     ok = isinstance(val, ast.Call) and norm(val.func) == "max" and len(val.args) == 2 and not val.keywords
     EM = "config.ascender - config.descender"
-    if ok:
+    pre = [c_ for c_ in calls_in(afi) if norm(c_.func) in ("round", "int", "math.floor", "math.ceil", "otRound") and len(c_.args) >= 1 and norm(c_.args[0]) in ("view_box.w", "view_box.h")]
+    if pre:
+        rr.bad(afi, pre[0], f"`{short(pre[0])}` rounds a side of the viewBox before the ratio is taken: the advance is no longer em height x w / h (viewBox 0 0 1.5 1 gives 2400 instead of 1800), "
+               f"so non-square artwork in small or fractional units gets the wrong advance", construct="_advance_width: viewBox side rounded before the ratio")
+        ok = None
+    if ok is None:
+        pass
+    elif ok:
         a = sorted(norm(x) for x in val.args)
         want = [f"round(({EM}) * view_box.w / view_box.h)", f"round(view_box.w * ({EM}) / view_box.h)", f"round(({EM}) * (view_box.w / view_box.h))"]
         if a[0] == "config.width" and a[1] in want:
